@@ -69,6 +69,10 @@ inductive Expr where
   | call (f : String) (args : Exprs)
   | callv (f : Expr) (args : Exprs)
   | lam (params : List String) (body : Expr)
+  /-- a top-level function used as a value (`let f = twice`, `[twice, twice]`, `apply(twice)`) -/
+  | fnref (f : String)
+  /-- a struct name used as a value: its constructor function (`let mk = Pt`) -/
+  | mkref (name : String)
   | try_ (e : Expr)
   | unwrap (e : Expr)
   | panic (msg : Expr)
@@ -208,6 +212,7 @@ structure Prog where
   deriving Inhabited
 
 def Prog.findFn (P : Prog) (f : String) : Option FnDef := P.fns.find? (·.name = f)
+def Prog.findStruct (P : Prog) (sname : String) : Option StructDef := P.structs.find? (·.name = sname)
 def Prog.fieldIdx (P : Prog) (sname f : String) : Option Nat :=
   match P.structs.find? (·.name = sname) with
   | some d => d.fields.idxOf? f
@@ -570,6 +575,16 @@ def evalE : Nat → Prog → St → Expr → Res Val
             | some env => callBody n P s2 env body
           | _ => .stuck "call of non-function"
     | .lam ps body => .ok (.clo ps body s.env) s
+    -- a named function / a constructor as a value: a function object that captures NOTHING (its environment is
+    -- empty whatever the bindings in scope are); calling it runs the function's own body
+    | .fnref f =>
+      match P.findFn f with
+      | some d => .ok (.clo d.params d.body []) s
+      | none => .stuck ("unknown function " ++ f)
+    | .mkref name =>
+      match P.findStruct name with
+      | some d => .ok (.clo d.fields (.mkStruct name (Exprs.ofList (d.fields.map .var))) []) s
+      | none => .stuck ("unknown struct " ++ name)
     | .try_ a => (evalE n P s a).bind fun v s1 => tryVal v s1
     | .unwrap a => (evalE n P s a).bind fun v s1 => unwrapVal v s1
     | .panic a =>
